@@ -1,0 +1,5 @@
+// +build !verif
+
+package tmutex
+
+func verifYield(site string) {}
